@@ -191,7 +191,11 @@ def finish(rep, level='proof', technique='', trusted_base=(), checker_cmd='', ex
                 except Exception as ex:
                     rc, out = 99, repr(ex)
                 seen_scripts[script] = (rp, rc, out)
-            if rc == 1 and 'FAIL' in out:      # a replay script that crashes (rc 1, no FAIL line) confirms nothing
+            crashed = rc < 0 or rc in (134, 139)     # the real code died on a signal (abort / segfault) during the replay
+            if crashed:
+                out = "FAIL the real code crashed during the replay (exit status %s): %s" % (
+                    rc, out.strip().split('\n')[-1][:120] if out.strip() else '')
+            if (rc == 1 and 'FAIL' in out) or crashed:      # a Python traceback (rc 1, no FAIL line) confirms nothing
                 fail = [l for l in out.strip().split('\n') if l.startswith('FAIL')]
                 vio_lines.append("VIOLATION property=%s replay=%s obligation=%s :: %s"
                                  % (rep.pid, rp, o.name, (fail or [out.strip().split('\n')[-1]])[0][:200]))
